@@ -23,9 +23,9 @@ using namespace dsplib;
 
 namespace {
 
-enum Kind { K_FFT = 0, K_IFFT = 1, K_PLAN_C = 2, K_RFFT = 3, K_IRFFT = 4, K_PLAN_R = 5, K_USE_C = 6, K_USE_R = 7, K_FFT_REAL = 8, K_PLAN_IC = 9, K_PLAN_IR = 10, K_USE_IC = 11, K_USE_IR = 12, K_CZT = 13, K_XCORR = 14, K_HILBERT = 15, K_NKINDS = 16, K_REFUSED = 16, K_NKINDS2 = 17 };
+enum Kind { K_FFT = 0, K_IFFT = 1, K_PLAN_C = 2, K_RFFT = 3, K_IRFFT = 4, K_PLAN_R = 5, K_USE_C = 6, K_USE_R = 7, K_FFT_REAL = 8, K_PLAN_IC = 9, K_PLAN_IR = 10, K_USE_IC = 11, K_USE_IR = 12, K_CZT = 13, K_XCORR = 14, K_HILBERT = 15, K_NKINDS = 16, K_REFUSED = 16, K_NKINDS2 = 17, K_FFT_PAD = 17, K_RFFT_PAD = 18, K_PLAN_Z = 19, K_USE_Z = 20, K_IRFFT_FULL = 21, K_NKINDS3 = 22 };
 const char* kind_name(int k) {
-    static const char* n[] = {"fft", "ifft", "FftPlan", "rfft", "irfft", "FftPlanR", "use-stored-FftPlan", "use-stored-FftPlanR", "fft(real)", "IfftPlan", "IfftPlanR", "use-stored-IfftPlan", "use-stored-IfftPlanR", "czt", "xcorr", "hilbert", "refused-request"};
+    static const char* n[] = {"fft", "ifft", "FftPlan", "rfft", "irfft", "FftPlanR", "use-stored-FftPlan", "use-stored-FftPlanR", "fft(real)", "IfftPlan", "IfftPlanR", "use-stored-IfftPlan", "use-stored-IfftPlanR", "czt", "xcorr", "hilbert", "refused-request", "fft(x,n) pad/truncate", "rfft(x,n) pad/truncate", "CztPlan", "use-stored-CztPlan", "irfft(full spectrum)"};
     return n[k];
 }
 inline int code(int kind, int len) { return kind * 100000 + len; }
@@ -62,7 +62,11 @@ struct Stored
     std::vector<std::pair<int, FftPlanR>> r;
     std::vector<std::pair<int, IfftPlan>> ic;
     std::vector<std::pair<int, IfftPlanR>> ir;
+    std::vector<std::pair<int, CztPlan>> z;
 };
+inline int czt_m(int n) { return (n % 3 == 0) ? n : (n % 3 == 1) ? std::max(1, n / 4) : 2 * n + 1; }
+inline cmplx_t czt_w(int n) { return expj(-2 * pi * 0.8 / n); }
+inline cmplx_t czt_a(int n) { return (n % 2) ? cmplx_t(1) : cmplx_t(0.9, 0.2); }
 
 // performs one request; returns the bit pattern of its result
 std::vector<uint64_t> perform(int kind, int n, Stored& st, int arg) {
@@ -84,6 +88,12 @@ std::vector<uint64_t> perform(int kind, int n, Stored& st, int arg) {
     case K_CZT: { const int m = (n % 3 == 0) ? n : std::max(1, n / 4); return bits(czt(cx_input(n), m, expj(-2 * pi * 0.8 / n), (n % 2) ? cmplx_t(1) : cmplx_t(0.9, 0.2))); }
     case K_XCORR: return bits(xcorr(re_input(n), re_input(n / 2 + 1)));
     case K_HILBERT: return bits(hilbert(re_input(n)));
+    // fft(x, n) / rfft(x, n) with len(x) != n: the plan requested is the one for n (input zero-padded from n/2+1 or truncated from n+3)
+    case K_FFT_PAD: return bits(fft(cx_input((n & 2) ? n / 2 + 1 : n + 3), n));
+    case K_RFFT_PAD: return bits(rfft(re_input((n & 2) ? n / 2 + 1 : n + 3), n));
+    case K_IRFFT_FULL: return bits(irfft(cx_input(n), n));   // all n bins given instead of n/2+1
+    case K_PLAN_Z: { CztPlan p(n, czt_m(n), czt_w(n), czt_a(n)); auto b = bits(p(cx_input(n))); st.z.emplace_back(n, p); return b; }
+    case K_USE_Z: { if (st.z.empty()) return {}; auto& e = st.z[size_t(arg) % st.z.size()]; return bits(e.second.solve(cx_input(e.first))); }
     // a request the library refuses (caught by the caller): the thread's caches must be as before and keep working as before
     case K_REFUSED: {
         uint64_t threw = 0;
@@ -107,7 +117,7 @@ std::map<int, std::vector<uint64_t>>& table() {
     return t;
 }
 const std::vector<uint64_t>& fresh_result(int kind, int n) {
-    int ek = kind == K_USE_C ? K_PLAN_C : kind == K_USE_R ? K_PLAN_R : kind == K_USE_IC ? K_PLAN_IC : kind == K_USE_IR ? K_PLAN_IR : kind;
+    int ek = kind == K_USE_C ? K_PLAN_C : kind == K_USE_R ? K_PLAN_R : kind == K_USE_IC ? K_PLAN_IC : kind == K_USE_IR ? K_PLAN_IR : kind == K_USE_Z ? K_PLAN_Z : kind;
     int key = code(ek, n);
     auto it = table().find(key);
     if (it != table().end()) return it->second;
@@ -171,6 +181,10 @@ HistResult run_history(const std::vector<int>& h) {
     HistResult R;
     std::thread th([&]() {
         const int cap = verif::fft_cache_capacity();
+#ifdef DSPLIB_FFT_CACHE_SIZE
+        // the configured number is the one this build was given on the command line (the harness is compiled with the same define)
+        if (cap != DSPLIB_FFT_CACHE_SIZE) { R.failed = true; R.sig = "cache:capacity-not-the-configured-one"; R.msg = fmt("the library reports a plan-cache capacity of %d, the build was configured with DSPLIB_FFT_CACHE_SIZE=%d", cap, int(DSPLIB_FFT_CACHE_SIZE)); return; }
+#endif
         Stored st;
         std::set<int> evicted_c, evicted_r;
         if (!verif::fft_cache_keys().empty() || !verif::rfft_cache_keys().empty()) { R.failed = true; R.sig = "cache:not-per-thread"; R.msg = "a fresh thread starts with a non-empty plan cache"; return; }
@@ -182,7 +196,8 @@ HistResult run_history(const std::vector<int>& h) {
             if (kind == K_USE_R) { if (st.r.empty()) continue; eff_n = st.r[size_t(n) % st.r.size()].first; }
             if (kind == K_USE_IC) { if (st.ic.empty()) continue; eff_n = st.ic[size_t(n) % st.ic.size()].first; }
             if (kind == K_USE_IR) { if (st.ir.empty()) continue; eff_n = st.ir[size_t(n) % st.ir.size()].first; }
-            const bool is_use = (kind == K_USE_C || kind == K_USE_R || kind == K_USE_IC || kind == K_USE_IR);
+            if (kind == K_USE_Z) { if (st.z.empty()) continue; eff_n = st.z[size_t(n) % st.z.size()].first; }
+            const bool is_use = (kind == K_USE_C || kind == K_USE_R || kind == K_USE_IC || kind == K_USE_IR || kind == K_USE_Z);
             std::vector<uint64_t> got;
             try { got = perform(kind, n, st, n); } catch (const std::exception& e) { R.failed = true; R.sig = "cache:exception"; R.msg = fmt("step %zu %s(%d) threw %s", step, kind_name(kind), n, e.what()); return; }
             const auto Ac = verif::fft_cache_keys(), Ar = verif::rfft_cache_keys();
@@ -200,17 +215,17 @@ HistResult run_history(const std::vector<int>& h) {
                 R.refused++;
                 if (n % 4 == 3) { e2 = lru_invariants(Ar, cap); e1 = lru_invariants(Ac, cap); }   // the plan itself was a valid request
                 else if (Ac != Bc || Ar != Br) e1 = "a refused request changed the caches: complex " + show(Bc) + " -> " + show(Ac) + ", real " + show(Br) + " -> " + show(Ar);
-            } else if (kind == K_CZT || kind == K_XCORR || kind == K_HILBERT) {
+            } else if (kind == K_CZT || kind == K_XCORR || kind == K_HILBERT || kind == K_PLAN_Z) {
                 // several internal requests: only the invariants are asserted (capacity, no duplicates), plus the result above
                 e1 = lru_invariants(Ac, cap);
                 e2 = lru_invariants(Ar, cap);
             } else if (is_use) {
                 if (Ac != Bc || Ar != Br) e1 = "using an existing plan object changed the cache: " + show(Bc) + " -> " + show(Ac);
                 const int ckey = (kind == K_USE_IR) ? eff_n / 2 : eff_n;
-                bool gone = (kind == K_USE_R) ? (!is_small(eff_n) && std::find(Br.begin(), Br.end(), eff_n) == Br.end()) : (!is_small(ckey) && std::find(Bc.begin(), Bc.end(), ckey) == Bc.end());
+                bool gone = (kind == K_USE_Z) ? (R.evictions > 0) : (kind == K_USE_R) ? (!is_small(eff_n) && std::find(Br.begin(), Br.end(), eff_n) == Br.end()) : (!is_small(ckey) && std::find(Bc.begin(), Bc.end(), ckey) == Bc.end());
                 if (gone) R.stored_after_evict++;
-            } else if (kind == K_FFT || kind == K_IFFT || kind == K_PLAN_C || kind == K_IRFFT || kind == K_PLAN_IC || kind == K_PLAN_IR) {
-                const int cn = (kind == K_IRFFT || kind == K_PLAN_IR) ? n / 2 : n;
+            } else if (kind == K_FFT || kind == K_IFFT || kind == K_PLAN_C || kind == K_IRFFT || kind == K_PLAN_IC || kind == K_PLAN_IR || kind == K_FFT_PAD || kind == K_IRFFT_FULL) {
+                const int cn = (kind == K_IRFFT || kind == K_PLAN_IR || kind == K_IRFFT_FULL) ? n / 2 : n;
                 if (Ar != Br) e2 = "a complex-plan request changed the real cache: " + show(Br) + " -> " + show(Ar);
                 if (is_small(cn)) { if (Ac != Bc) e1 = fmt("small length %d must not be cached: ", cn) + show(Bc) + " -> " + show(Ac); }
                 else {
@@ -353,10 +368,10 @@ static void lng_check(const Json& c, Out& o) {
     std::vector<int> h;
     const int npool = c.geti("npool");
     for (int i = 0; i < len; ++i) {
-        int kind = r.range(0, int(c.geti("v", 1) >= 2 ? K_NKINDS2 : K_NKINDS) - 1);
+        int kind = r.range(0, int(c.geti("v", 1) >= 3 ? K_NKINDS3 : c.geti("v", 1) >= 2 ? K_NKINDS2 : K_NKINDS) - 1);
         int n = pool[r.range(0, npool - 1)];
-        if (kind == K_USE_C || kind == K_USE_R || kind == K_USE_IC || kind == K_USE_IR) n = r.range(0, 63);
-        if (kind == K_IRFFT || kind == K_PLAN_IR) n = 2 * n;
+        if (kind == K_USE_C || kind == K_USE_R || kind == K_USE_IC || kind == K_USE_IR || kind == K_USE_Z) n = r.range(0, 63);
+        if (kind == K_IRFFT || kind == K_PLAN_IR || kind == K_IRFFT_FULL) n = 2 * n;
         if (kind == K_HILBERT) n = std::max(n, 3);
         h.push_back(code(kind, n));
     }
@@ -373,10 +388,73 @@ static void lng_check(const Json& c, Out& o) {
 }
 static void lng_gen(Ctx& ctx) {
     ctx.rc("random", ctx.by_tier(3000, 30000), [&]() {
-        return Json::object().set("v", 2).set("len", pick_log(1, ctx.by_tier(600, 10000))).set("npool", pick(2, 40)).set("seed", (long long)seed64());
+        return Json::object().set("v", 3).set("len", pick_log(1, ctx.by_tier(600, 10000))).set("npool", pick(2, 40)).set("seed", (long long)seed64());
     });
 }
 
+
+// ------------------------------------------------------------------------------------------- plans outlive their creating thread
+// "A plan object obtained earlier remains valid": also when the thread that constructed it (and with it that thread's plan cache and
+// every other thread_local of the library) is gone.  Thread A builds plan objects of every kind and ends; the case's own thread
+// churns the allocator with other transforms, then uses the plans, and so does a third thread.  Results must be bit-identical to the
+// same call made first thing in a fresh thread.  (In the ASan configuration a plan that kept a pointer into A's thread_local state
+// is a heap-use-after-free.)
+VK_SUB(out, "plan_outlives_thread");
+static void out_check(const Json& c, Out& o) {
+    std::vector<int> lens = c.ints("lens");
+    const int churn = c.geti("churn");
+    Stored st;
+    std::thread A([&]() {
+        for (int n : lens) {
+            Stored tmp;
+            (void)perform(K_PLAN_C, n, st, 0);
+            (void)perform(K_PLAN_R, n, st, 0);
+            (void)perform(K_PLAN_IC, n, st, 0);
+            (void)perform(K_PLAN_IR, n + (n & 1), st, 0);
+            (void)perform(K_PLAN_Z, n, st, 0);
+        }
+    });
+    A.join();
+    for (int k = 0; k < churn; ++k) { Stored tmp; (void)perform(k % 2 ? K_FFT : K_RFFT, 3 + ((k * 37) % 200), tmp, 0); (void)perform(K_XCORR, 5 + k, tmp, 0); }
+    std::string err;
+    auto use_all = [&](const char* who) {
+        const int kinds[5] = {K_USE_C, K_USE_R, K_USE_IC, K_USE_IR, K_USE_Z};
+        for (int kd : kinds) {
+            const size_t cnt = kd == K_USE_C ? st.c.size() : kd == K_USE_R ? st.r.size() : kd == K_USE_IC ? st.ic.size() : kd == K_USE_IR ? st.ir.size() : st.z.size();
+            for (size_t i = 0; i < cnt && err.empty(); ++i) {
+                const int n = kd == K_USE_C ? st.c[i].first : kd == K_USE_R ? st.r[i].first : kd == K_USE_IC ? st.ic[i].first : kd == K_USE_IR ? st.ir[i].first : st.z[i].first;
+                std::vector<uint64_t> got;
+                try { got = perform(kd, n, st, int(i)); } catch (const std::exception& e) { err = fmt("%s: %s(%d) threw %s", who, kind_name(kd), n, e.what()); break; }
+                if (got != fresh_result(kd, n)) err = fmt("%s: %s(%d), plan built by a thread that has ended: result differs from the same call in a fresh thread", who, kind_name(kd), n);
+            }
+        }
+    };
+    use_all("the case's thread");
+    if (err.empty()) { std::thread B([&]() { use_all("another thread"); }); B.join(); }
+    if (!err.empty()) o.fail("plan:outlives-creator", err + " lens=" + show(lens));
+    o.evals = long(lens.size()) * 10;
+    uint64_t k = 0x0A7;
+    for (int n : lens) k = mix(k, uint64_t(n));
+    o.nontrivial(mix(k, uint64_t(churn)));
+    o.label(churn ? "allocator-churn:yes" : "allocator-churn:no");
+    o.label(fmt("capacity:%d", verif::fft_cache_capacity()));
+}
+static void out_gen(Ctx& ctx) {
+    ctx.rc("random", ctx.by_tier(8000, 80000), [&]() {
+        std::vector<int> lens;
+        for (int i = pick(1, 5); i > 0; --i) {
+            switch (pick(0, 5)) {
+            case 0: lens.push_back(pick(1, 41)); break;
+            case 1: lens.push_back(one_of<int>({5, 7, 11, 13, 17, 31, 37, 41, 43, 47, 97, 127})); break;
+            case 2: lens.push_back(1 << pick(1, 9)); break;
+            case 3: lens.push_back(one_of<int>({12, 15, 35, 60, 105, 120, 124, 243, 360})); break;
+            case 4: lens.push_back(2 * one_of<int>({43, 47, 53, 97})); break;
+            default: lens.push_back(pick(2, 300));
+            }
+        }
+        return Json::object().set("lens", lens).set("churn", pick(0, 2) == 0 ? 0 : pick(1, 12));
+    });
+}
 
 // ------------------------------------------------------------------------------------------- pristine-process oracle
 // The fresh-thread reference above shares the PROCESS with the history, so state that is (wrongly) process-wide - a
@@ -397,6 +475,7 @@ int pristine_main(int argc, char** argv) {
         if (kind == K_USE_R) { if (st.r.empty()) { printf("SKIP 0 0\n"); continue; } eff_kind = K_PLAN_R; eff_n = st.r[size_t(n) % st.r.size()].first; }
         if (kind == K_USE_IC) { if (st.ic.empty()) { printf("SKIP 0 0\n"); continue; } eff_kind = K_PLAN_IC; eff_n = st.ic[size_t(n) % st.ic.size()].first; }
         if (kind == K_USE_IR) { if (st.ir.empty()) { printf("SKIP 0 0\n"); continue; } eff_kind = K_PLAN_IR; eff_n = st.ir[size_t(n) % st.ir.size()].first; }
+        if (kind == K_USE_Z) { if (st.z.empty()) { printf("SKIP 0 0\n"); continue; } eff_kind = K_PLAN_Z; eff_n = st.z[size_t(n) % st.z.size()].first; }
         try {
             auto b = perform(kind, n, st, n);
             printf("%016llx %d %d\n", (unsigned long long)hash_bits(b), eff_kind, eff_n);
@@ -451,7 +530,7 @@ static void fpr_check(const Json& c, Out& o) {
             it = single.emplace(key, one[0].hash).first;
         }
         if (got[i].hash != it->second) {
-            const bool use = kind_of(h[i]) == K_USE_C || kind_of(h[i]) == K_USE_R || kind_of(h[i]) == K_USE_IC || kind_of(h[i]) == K_USE_IR;
+            const bool use = kind_of(h[i]) == K_USE_C || kind_of(h[i]) == K_USE_R || kind_of(h[i]) == K_USE_IC || kind_of(h[i]) == K_USE_IR || kind_of(h[i]) == K_USE_Z;
             o.fail(use ? "process:stored-plan-result" : "process:result-depends-on-history",
                    fmt("step %zu %s(%d): result (%s) differs from the same call made as the first call of a new process (%s)", i, kind_name(kind_of(h[i])), got[i].n, got[i].hash.c_str(), it->second.c_str()) + " history=" + show(h));
             return;
@@ -477,7 +556,7 @@ static void fpr_gen(Ctx& ctx) {
         // a case usually stays inside one length family, so that related lengths (same residue class, same sub-plans) meet
         const int family = pick(0, 5);
         for (int i = 0; i < len; ++i) {
-            int kind = pick(0, int(K_NKINDS2) - 1);
+            int kind = pick(0, int(K_NKINDS3) - 1);
             int n;
             switch (pick(0, 3) == 0 ? pick(0, 5) : family) {
             case 0: n = pick(1, 40); break;
@@ -487,8 +566,8 @@ static void fpr_gen(Ctx& ctx) {
             case 4: n = one_of<int>({12, 15, 18, 20, 21, 24, 36, 45, 60, 63, 100, 105, 120, 243, 360, 625, 1000}); break;
             default: n = 2 * one_of<int>({43, 47, 53, 97, 101, 127}) * pick(1, 3); break;          // composites with a CZT leaf
             }
-            if (kind == K_USE_C || kind == K_USE_R || kind == K_USE_IC || kind == K_USE_IR) n = pick(0, 63);
-            else if (kind == K_IRFFT || kind == K_PLAN_IR) n += (n & 1);
+            if (kind == K_USE_C || kind == K_USE_R || kind == K_USE_IC || kind == K_USE_IR || kind == K_USE_Z) n = pick(0, 63);
+            else if (kind == K_IRFFT || kind == K_PLAN_IR || kind == K_IRFFT_FULL) n += (n & 1);
             if (kind == K_HILBERT) n = std::max(n, 3);
             h.push_back(code(kind, n));
         }
